@@ -326,79 +326,130 @@ def _is_wide(t):
     return q in WIDE
 
 
-def check_index_walk(chk, prog):
-    """jwks_item_get(set, i) / jwks_item_free(set, i): the i-th item of a forward walk.  Decided structurally: the index argument is never
-    narrowed, the position counter starts at 0 and is stepped by exactly one at the end of every iteration that does not select"""
-    from interp import Unsupported
+def check_index_walk(chk, prog, env, model, dtor):
+    """jwks_item_get(set, i) / jwks_item_free(set, i): the i-th item of a walk.  Per-iteration relation read off the interpreter's
+    generic iteration (loop havoc): an item is selected exactly when the position counter equals the index argument (full width),
+    the counter is 0 on entry and every iteration that goes round again leaves it one higher"""
+    from interp import Unsupported, Cmp, linform
     u = prog.unit(UNIT)
     n = 0
     bad = 0
     for fname, f in sorted(u.funcs.items()):
         params = [p for p in f.get('inner', ()) if isinstance(p, dict) and p.get('kind') == 'ParmVarDecl']
-        ip = [p for p in params if _is_wide(p.get('type')) or (p.get('type', {}).get('qualType', '') in ('int', 'unsigned int', 'const int', 'const unsigned int'))]
+        ip = [p for p in params if _is_wide(p.get('type')) or (p.get('type', {}).get('qualType', '').replace('const ', '') in ('int', 'unsigned int'))]
         sp = [p for p in params if 'jwk_set' in p.get('type', {}).get('qualType', '')]
-        if len(ip) != 1 or not sp or f.get('storageClass') == 'static':
-            continue
-        idx = ip[0]
-        loops = [x for x in walk(f) if x.get('kind') == 'ForStmt' and x.get('_mac') in ('list_for_each_entry', 'list_for_each_entry_safe')]
-        if not loops:
+        if len(ip) != 1 or len(params) != 2 or not sp or f.get('storageClass') == 'static':
             continue
         n += 1
-        if not _is_wide(idx.get('type')):
+        if not _is_wide(ip[0].get('type')):
             bad += 1
-            chk.add(Finding('C16.index-walk', UNIT, fname, 'index-narrow', 'the index parameter has type %s' % idx['type'].get('qualType')))
-        # (a) no narrowing conversion of an expression that mentions the index parameter
-        for x in walk(f):
-            if x.get('kind') in ('CStyleCastExpr', 'ImplicitCastExpr') and x.get('castKind') == 'IntegralCast' and not _is_wide(x.get('type')):
-                if any(y.get('kind') == 'DeclRefExpr' and y.get('referencedDecl', {}).get('id') == idx.get('id') for y in walk(x)):
+            chk.add(Finding('C16.index-walk', UNIT, fname, 'index-narrow', 'the index parameter has type %s' % ip[0]['type'].get('qualType')))
+        index = Term(('index',))
+
+        def find_cmp(pc):
+            found = None
+            for val, truth, loc in pc:
+                if isinstance(val, Cmp) and (vkey(val.a) == vkey(index) or vkey(val.b) == vkey(index)):
+                    other = val.b if vkey(val.a) == vkey(index) else val.a
+                    op = val.op if vkey(val.b) == vkey(index) else {'<': '>', '>': '<', '<=': '>=', '>=': '<='}.get(val.op, val.op)
+                    if isinstance(other, Term) and other.k[0] == 'havoc':
+                        found = (op, truth, other.k, loc)
+            return found
+
+        class R(Rule):
+            alloc_may_fail = False
+            track_pc = True
+
+            def __init__(self):
+                self.entry = {}
+                self.ends = []
+                self.narrow = []
+                self.tag = None
+                self.copies = []      # (target var loc, havoc key of the copied pointer, compare found on the path)
+                self.exits = []       # (havoc key of the item that leaves the walk, compare found on the path, where)
+
+            def keep_event(self, ev):
+                return False
+
+            def on_loop_entry(self, it, st, loop, tag):
+                self.tag = tag
+                self.entry[tag] = dict((k, v) for k, v in st.mem.items() if k[0][0] == 'var')
+
+            def on_iteration_end(self, it, st, loop, tag):
+                self.ends.append((tag, dict((k, v) for k, v in st.mem.items() if k[0][0] == 'var')))
+
+            def on_narrow(self, it, st, v, node, from_type, to_type):
+                if 'index' in repr(vkey(v)):
+                    self.narrow.append((node_loc(node), to_type))
+
+            def on_store(self, it, st, loc, path, v, node):
+                if self.tag and loc[0] == 'var' and isinstance(v, Term) and v.k[0] == 'havoc' and v.ptr and (v.k[2], v.k[3]) != (loc, path):
+                    self.copies.append(((loc, path), v.k, find_cmp(st.pc)))
+
+            def leaves(self, st, v, node):
+                if isinstance(v, Term) and v.k[0] == 'havoc' and v.ptr:
+                    self.exits.append((v.k, find_cmp(st.pc), node_loc(node) if isinstance(node, dict) else (None, None)))
+
+            def on_return(self, it, st, fn_, rv):
+                if fn_ == fname:
+                    self.leaves(st, rv, None)
+
+        def h_free(it, st, args, node):
+            it.rule.leaves(st, args[0], node)
+            return [(st, Int(0))]
+        rule = R()
+        it = Interp(prog, UNIT, model=model, rule=rule, hooks={dtor: h_free})
+        st = State()
+        st.cons[index.k] = (('>=', 0),)
+        args = [Ref(('obj', 'set')) if 'jwk_set' in p.get('type', {}).get('qualType', '') else index for p in params]
+        res = it.run(fname, args, st)
+        for (fl, ln), tt in sorted(set(rule.narrow)):
+            bad += 1
+            chk.add(Finding('C16.index-walk', UNIT, fname, 'index-truncated',
+                            'the index argument is converted to %s before it is compared: indices beyond that type alias into range' % tt, line=ln))
+        counters = set()
+        cmps = [c for _, c, _ in rule.exits if c] + [c for _, _, c in rule.copies if c]
+        if not rule.exits:
+            raise Unsupported('%s: no item leaves the walk' % fname)
+        if not cmps:
+            raise Unsupported('%s: items leave the walk on paths that never compare a position counter with the index' % fname)
+        for op, truth, ck, loc in cmps:
+            if (op, truth) not in (('==', True), ('!=', False), ('>=', True), ('<', False)):
+                bad += 1
+                chk.add(Finding('C16.index-walk', UNIT, fname, 'select[%s%s]' % ('' if truth else 'not ', op),
+                                'an item is selected when "counter %s index" is %s' % (op, truth), line=loc[1]))
+            counters.add(ck)
+        for hk, c, (fl, ln) in rule.exits:
+            if c:
+                continue
+            # selected in an earlier iteration: the variable only ever receives the cursor under the compare
+            var = (hk[2], hk[3])
+            cps = [cc for tgt, src, cc in rule.copies if tgt == var]
+            if not cps or not all(cps):
+                bad += 1
+                chk.add(Finding('C16.index-walk', UNIT, fname, 'select-without-compare',
+                                'an item leaves the walk (returned / released) on a path that did not find the position counter equal to the index',
+                                line=ln))
+        for ck in sorted(counters, key=repr):
+            _, tag, cloc, cpath = ck
+            e0 = rule.entry.get(tag, {}).get((cloc, cpath))
+            if not (isinstance(e0, Int) and e0.v == 0):
+                bad += 1
+                chk.add(Finding('C16.index-walk', UNIT, fname, 'counter-start', 'the position counter is %r, not 0, when the walk starts' % (e0,)))
+            ends = [m for t, m in rule.ends if t == tag]
+            if not ends:
+                raise Unsupported('%s: no iteration of the walk goes round again' % fname)
+            for m in ends:
+                cur = m.get((cloc, cpath))
+                lc, lh = linform(cur) if cur is not None else None, linform(Term(ck))
+                if lc is None or lc[0] != lh[0] or lc[1] - lh[1] != 1:
                     bad += 1
-                    chk.add(Finding('C16.index-walk', UNIT, fname, 'index-truncated',
-                                    'the index argument is converted to %s before it is compared: indices beyond that type alias into range'
-                                    % x['type'].get('qualType'), line=x.get('_l')))
-        # (b) the counter compared with the index
-        loop = loops[0]
-        body = loop['inner'][-1]
-        cmps = []
-        for x in walk(body):
-            if x.get('kind') == 'BinaryOperator' and x.get('opcode') in ('==', '>=', '<=', '!=', '<', '>'):
-                l, r = _strip(x['inner'][0]), _strip(x['inner'][1])
-                for a, b in ((l, r), (r, l)):
-                    if a.get('kind') == 'DeclRefExpr' and a['referencedDecl'].get('id') == idx.get('id') and b.get('kind') == 'DeclRefExpr':
-                        cmps.append((x, b))
-        if len(cmps) != 1:
-            raise Unsupported('%s: the walk does not compare a position counter with the index in a recognised way' % fname)
-        cmpn, ctr = cmps[0]
-        cid = ctr['referencedDecl']['id']
-        decl = [x for x in walk(f) if x.get('kind') == 'VarDecl' and x.get('id') == cid]
-        init = _strip(decl[0]['inner'][0]) if decl and decl[0].get('inner') else {}
-        if cmpn.get('opcode') not in ('==', '>='):
-            bad += 1
-            chk.add(Finding('C16.index-walk', UNIT, fname, 'select[%s]' % cmpn.get('opcode'),
-                            'an item is selected when counter %s index' % cmpn.get('opcode'), line=cmpn.get('_l')))
-        if not (init.get('kind') == 'IntegerLiteral' and init.get('value') == '0'):
-            bad += 1
-            chk.add(Finding('C16.index-walk', UNIT, fname, 'counter-start', 'the position counter does not start at 0', line=(decl[0] if decl else f).get('_l')))
-        steps = []
-        for x in walk(f):
-            if x.get('kind') == 'UnaryOperator' and x.get('opcode') in ('++', '--') and _strip(x['inner'][0]).get('referencedDecl', {}).get('id') == cid:
-                steps.append(('++' if x['opcode'] == '++' else 'bad', x))
-            if x.get('kind') in ('CompoundAssignOperator', 'BinaryOperator') and x.get('opcode') in ('+=', '-=', '=', '*=') \
-                    and _strip(x['inner'][0]).get('referencedDecl', {}).get('id') == cid:
-                rhs = _strip(x['inner'][1])
-                steps.append(('++' if x['opcode'] == '+=' and rhs.get('kind') == 'IntegerLiteral' and rhs.get('value') == '1' else 'bad', x))
-        top = body.get('inner', []) if body.get('kind') == 'CompoundStmt' else [body]
-        inc_top = [t for t in top if steps and (t is steps[0][1] or _strip(t) is steps[0][1])]
-        cont = [x for x in walk(body) if x.get('kind') == 'ContinueStmt']
-        if len(steps) != 1 or steps[0][0] != '++':
-            bad += 1
-            chk.add(Finding('C16.index-walk', UNIT, fname, 'counter-step', 'the position counter is not stepped by exactly one, once per iteration',
-                            line=(steps[0][1] if steps else loop).get('_l')))
-        elif not inc_top or top.index(inc_top[0]) != len(top) - 1 or cont:
-            bad += 1
-            chk.add(Finding('C16.index-walk', UNIT, fname, 'counter-skipped',
-                            'the step of the position counter is not the unconditional last statement of the iteration', line=steps[0][1].get('_l')))
-    chk.rule('C16.index-walk', 'index lookups: the index is never narrowed, the counter starts at 0 and is stepped by one at the end of each '
-                               'non-selecting iteration of a forward walk', n, bad, floor=2)
+                    chk.add(Finding('C16.index-walk', UNIT, fname, 'counter-step',
+                                    'an iteration that goes round again leaves the position counter at %r (must be its value at the loop head + 1)'
+                                    % (cur,)))
+                    break
+    chk.rule('C16.index-walk', 'index lookups: an item is selected exactly when the position counter equals the (never narrowed) index; the '
+                               'counter is 0 on entry and one higher after every iteration that goes round again', n, bad, floor=2)
 
 
 def run(chk, prog, tier):
@@ -412,7 +463,7 @@ def run(chk, prog, tier):
     chk.guard('destructor', check_destructor, chk, prog, env, model, dtor)
     chk.guard('free_bad counter', check_counters, chk, prog, env, model, dtor)
     chk.guard('lookups', check_lookups, chk, prog, env, model, dtor)
-    chk.guard('index walk', check_index_walk, chk, prog)
+    chk.guard('index walk', check_index_walk, chk, prog, env, model, dtor)
     chk.assumptions += ['list semantics under arbitrary operation sequences and the heap-shape invariants of ll.h are NOT decided (loops over '
                         'runtime data); the index walk is decided as a per-iteration shape (start 0, step 1, full-width compare), not by induction']
     return chk.finish(
